@@ -5,6 +5,7 @@ mod cw20;
 mod cw3;
 mod cw4;
 mod ics20;
+mod paging;
 mod thr;
 
 use common::*;
@@ -69,6 +70,13 @@ fn main() {
         }
     }
     let mut rng = Rng::new(seed);
+    if sys == "paging" {
+        // --mode sizes:0,1,9,... selects the listing sizes
+        let sizes: Vec<usize> = mode.strip_prefix("sizes:").unwrap_or("0,1,9,10,11,29,30,31,45").split(',').map(|x| x.parse().unwrap()).collect();
+        paging::run_all(&mut rng, &sizes, &mut out);
+        out.finish(stats.as_deref());
+        return;
+    }
     if sys == "thr" {
         // --mode grid:<MaxT> enumerates the complete small domain; --random N adds N cases at u64 magnitudes
         if let Some(mt) = mode.strip_prefix("grid:") {
